@@ -737,6 +737,16 @@ def single_run(scn, sb, oracle):
                 bad = check_c01(W, mcfg, blob)
             elif oracle == 'C03':
                 bad = check_c03(W, mcfg, blob)
+                if not bad and r['dcfg'].get('hdf5_result_path') and os.path.exists(r['dcfg']['hdf5_result_path']):
+                    # the same contract on the HDF5 output as the reader returns it (the HDF5 writer stores the numbers
+                    # in its own arrays; equality with the JSON output is C15's business, the arithmetic is C03's)
+                    try:
+                        from cell_type_mapper.utils.output_utils import hdf5_to_blob
+                        hb = hdf5_to_blob(r['dcfg']['hdf5_result_path'])
+                    except Exception:
+                        hb = None
+                    if hb is not None and hb.get('results'):
+                        bad = [(c_ + '-in-hdf5', d_) for c_, d_ in check_c03(W, mcfg, hb)]
             elif oracle == 'C15':
                 bad = check_c15(W, mcfg, blob, r['dcfg'], exp)
             else:
